@@ -23,6 +23,8 @@ func smExtraCases(c *core.Ctx) ([]smCase, *tlc.Result, error) {
 			c.InfraError("bad extra case %s: %v", l, err)
 			return
 		}
+		r.Root = strings.ReplaceAll(r.Root, "<E9>", "é")
+		r.Typ = strings.ReplaceAll(r.Typ, "<E9>", "é")
 		if strings.HasPrefix(r.Fam, "scaled:") {
 			// the specification gives shape, size and the member pattern; the text is built here
 			parts := strings.Split(r.Fam, ":")
